@@ -3,12 +3,13 @@
 # not touched, so it can run while other checks use /repo). Needs an up-to-date build of the Coq side in /verif.
 set -u
 id=$1; shift
+ROOT=$(cd "$(dirname "$0")/.." && pwd)   # works from a snapshot of /verif (vp run) as well
 props=${@:-$(echo $id | cut -c1-3)}
-wt=/tmp/alt-repo-$id
+wt=/tmp/alt-repo-$(basename $ROOT)-$id
 git -C /repo worktree remove --force $wt >/dev/null 2>&1; rm -rf $wt
 git -C /repo worktree add --detach $wt HEAD >/dev/null 2>&1 || { echo "worktree failed"; exit 2; }
-git -C $wt apply /verif/seeded/$id/patch.diff || { echo "patch does not apply"; git -C /repo worktree remove --force $wt; exit 2; }
-cd /verif
+git -C $wt apply $ROOT/seeded/$id/patch.diff || { echo "patch does not apply"; git -C /repo worktree remove --force $wt; exit 2; }
+cd $ROOT
 for p in $props; do
   start=$(date +%s)
   out=$(VERIF_ALT=$wt ./check $p 2>&1); rc=$?
